@@ -499,6 +499,78 @@ def probe_server(tree):
             "callcontext": {"thread_local": thread_local, "restored": oneway}, "oneway": {"copies": bool(oneway)}}
 
 
+def probe_client(tree):
+    """client half of the second reader: Proxy._pyroInvoke of the tree under test is run on a stand-in connection with the
+    calling thread's response annotations poisoned beforehand; `reset` = nothing of what was there before the call is left
+    afterwards when the call gets a reply without annotations, gets no reply (oneway), or fails while reading the reply"""
+    clim = tree_module(tree, "Pyro5.client")
+    prot = tree_module(tree, "Pyro5.protocol")
+    ccm = tree_module(tree, "Pyro5.callcontext")
+    serm = tree_module(tree, "Pyro5.serializers")
+    errm = tree_module(tree, "Pyro5.errors")
+    cc = ccm.current_context
+    ser = serm.serializers["serpent"]
+    saved = {n: getattr(cc, n) for n in ("response_annotations", "annotations", "correlation_id")}
+
+    class Conn(object):
+        """answers the request it is sent with a RESULT that has the request's sequence number"""
+        objectId = "probe"
+        keep_open = False
+
+        def __init__(self, reply_annotations, fail=False):
+            self.reply_annotations, self.fail, self.buf, self.requests = reply_annotations, fail, bytearray(), []
+
+        def send(self, data):
+            data = bytes(data)
+            self.requests.append(data)
+            req = prot.ReceivingMessage(data[:40])
+            if not self.fail:
+                corr, cc.correlation_id = cc.correlation_id, None
+                try:
+                    self.buf += bytes(prot.SendingMessage(prot.MSG_RESULT, 0, req.seq, req.serializer_id, ser.dumps(42),
+                                                          annotations=self.reply_annotations).data)
+                finally:
+                    cc.correlation_id = corr
+
+        def recv(self, size):
+            if len(self.buf) < size:
+                raise errm.ConnectionClosedError("receiving: not enough data")
+            out = bytes(self.buf[:size])
+            del self.buf[:size]
+            return out
+
+        def close(self):
+            pass
+
+    def invoke(conn, flags=0):
+        p = clim.Proxy("PYRO:probe@127.0.0.1:9")
+        p._pyroSerializer = "serpent"
+        p._pyroMaxRetries = 0
+        p._pyroConnection = conn
+        cc.response_annotations = {"XPOI": b"p"}
+        cc.annotations, cc.correlation_id = {}, None
+        try:
+            value = p._pyroInvoke("look", (), {}, flags=flags)
+        except errm.CommunicationError:
+            value = "comm-error"
+        finally:
+            p._pyroConnection = None
+        return value, {k: bytes(v) for k, v in dict(cc.response_annotations).items()}
+    try:
+        v, after_plain = invoke(Conn({}))
+        need(v == 42, "probe: _pyroInvoke did not return the reply's value")
+        v, after_ann = invoke(Conn({"RSET": b"1"}))
+        need(v == 42 and after_ann == {"RSET": b"1"}, "_pyroInvoke: the reply's annotations are not what the client holds after the call")
+        v, after_oneway = invoke(Conn({}), flags=prot.FLAGS_ONEWAY)
+        need(v is None, "probe: a oneway _pyroInvoke returned something")
+        v, after_fail = invoke(Conn({}, fail=True))
+        need(v == "comm-error", "probe: a lost reply did not give a communication error")
+    finally:
+        for n, val in saved.items():
+            setattr(cc, n, val)
+    return {"reset": after_plain == {} and after_oneway == {} and after_fail == {}}
+
+
 def server_facts_ast(tree):
     srv, _ = parse(tree, "Pyro5/server.py")
     ccm, _ = parse(tree, "Pyro5/callcontext.py")
@@ -529,7 +601,11 @@ def gen_callctx(tree):
         facts = probe_server(tree)
         mode = "probed (ast reader: %s)" % x
     f_hr, f_hs, f_an, f_cc, f_ow = facts["handleRequest"], facts["handshake"], facts["annotations_fn"], facts["callcontext"], facts["oneway"]
-    f_cl = client_facts(cli)
+    try:
+        f_cl = client_facts(cli)
+    except GenError as x:
+        f_cl = probe_client(tree)
+        mode += "; client probed (ast reader: %s)" % x
     oneway = f_cc["restored"] if f_ow["copies"] else []
     out = HEADER % "Pyro5/server.py, Pyro5/callcontext.py, Pyro5/client.py"
     out += "(* field ids: %s *)\n" % ", ".join("%s=%d" % (k, v) for k, v in FIELDS.items())
